@@ -1146,4 +1146,87 @@ example (sb sc : Image Rat) (present : List Bool) (h : agree (halfUnit 2) printS
     agree (halfUnit 2) agreeSlack present sb sc = true :=
   agree_transfer _ present sb sc sb sc (near_refl _ (by norm_num) _) (near_refl _ (by norm_num) _) h
 
+/-! ## the entry points with their options (`collection_methods`, `counts_per_second`, `use_acq_for_names`, `full`) -/
+
+/-- `load_binary` called with any option tuple (each option given or omitted) returns the stacked
+image, divided when counts per second are asked for, in the return shape `full` asks for: the order
+in which the code reads the params and divides does not matter (`hdiv`: the division leaves the
+times alone, as `cps` does), and `full` only adds the params.  Any batch. -/
+theorem loadBinaryCall_eq {α : Type} (m : Meta) (files : List (DataFile α)) (ms : List MassInfo)
+    (divide : List MassInfo → Image α → Image α) (o : CallOpts)
+    (hdiv : ∀ t im, (divide t im).times = im.times) :
+    loadBinaryCall m files (some ms) divide o
+      = (loadBinary m files (some ms) o.methodsV).map
+          (fun im => retOf o.fullV (if o.cpsV then divide ms im else im)) := by
+  unfold loadBinaryCall retOf
+  cases loadBinary m files (some ms) o.methodsV with
+  | error e => rfl
+  | ok im =>
+    cases hf : o.fullV <;> cases hc : o.cpsV <;>
+      simp [Except.map, bind, Except.bind, pure, Except.pure, hdiv]
+
+/-- `load_csv` called with any option tuple: the CSV import with the names the options select, in
+the return shape `full` asks for. -/
+theorem loadCsvCall_eq {α : Type} (m : Meta) (files : List (DataFile α)) (acq : Option (List Name)) (o : CallOpts) :
+    loadCsvCall m files acq o
+      = (loadCsv m files (if o.useAcqV then acq else none) o.methodsV).map (retOf o.fullV) := by
+  unfold loadCsvCall retOf
+  cases loadCsv m files (if o.useAcqV then acq else none) o.methodsV with
+  | error e => rfl
+  | ok im => cases hf : o.fullV <;> simp [Except.map, bind, Except.bind, pure, Except.pure]
+
+/-- The image does not depend on `full`: whatever `full` is changed to (given `true`/`false` or
+omitted), `load_binary` and `load_csv` return the same names and pixels (or raise alike), for every
+batch and every setting of the other options (counts per second included). -/
+theorem call_image_indep_of_full {α : Type} (m : Meta) (files : List (DataFile α)) (masses : Option (List MassInfo))
+    (divide : List MassInfo → Image α → Image α) (acq : Option (List Name)) (o : CallOpts) (f : Option Bool) :
+    (loadBinaryCall m files masses divide { o with full := f }).map Returned.image
+        = (loadBinaryCall m files masses divide o).map Returned.image ∧
+    (loadCsvCall m files acq { o with full := f }).map Returned.image
+        = (loadCsvCall m files acq o).map Returned.image := by
+  rw [loadBinaryCall_image, loadBinaryCall_image, loadCsvCall_image, loadCsvCall_image]
+  exact ⟨rfl, rfl⟩
+
+/-- the same for `load` (binary import, CSV import when that raises) -/
+theorem load_image_indep_of_full (m : Meta) (files : List (DataFile Rat)) (masses : Option (List MassInfo))
+    (divide : List MassInfo → Image Rat → Image Rat) (acq : Option (List Name)) (o : CallOpts) (f : Option Bool) :
+    (load (loadBinaryCall m files masses divide { o with full := f }) (loadCsvCall m files acq { o with full := f })).map
+        Returned.image
+      = (load (loadBinaryCall m files masses divide o) (loadCsvCall m files acq o)).map Returned.image := by
+  rw [load_map, load_map, (call_image_indep_of_full m files masses divide acq o f).1,
+    (call_image_indep_of_full m files masses divide acq o f).2]
+
+/-- Counts per second with any `full`: when `load_binary(..., counts_per_second=True, full=...)`
+returns, every pixel of element `j` is the stacked value divided by the accumulation time of the
+`j`-th mass, the names are those of the mass table, and the params are the times exactly when `full`. -/
+theorem call_cps_pixel (m : Meta) (files : List (DataFile Rat)) (ms : List MassInfo) (o : CallOpts) (r : Returned Rat)
+    (h : loadBinaryCall m files (some ms) cps o = .ok r) (hc : o.cpsV = true) :
+    ∃ im, loadBinary m files (some ms) o.methodsV = .ok im ∧ r.names = im.names ∧
+      r.params = (if o.fullV then some im.times else none) ∧
+      ∀ (i j s : Nat) (x : MassInfo), ms[j]? = some x → px r.img i j s = (px im.img i j s).map (· / x.acctime) := by
+  rw [loadBinaryCall_eq m files ms cps o (fun _ _ => rfl)] at h
+  cases hl : loadBinary m files (some ms) o.methodsV with
+  | error e => rw [hl] at h; simp [Except.map] at h
+  | ok im =>
+    rw [hl] at h
+    simp only [Except.map, hc, if_true, Except.ok.injEq] at h
+    subst h
+    refine ⟨im, rfl, rfl, rfl, ?_⟩
+    intro i j s x hx
+    exact (cps_pixel ms im i j s x hx).1
+
+def exFilesQ : List (DataFile Rat) :=
+  [{ name := "9.d".toList, hasBinary := true, scans := [⟨68, 56, 0⟩, ⟨124, 56, 1⟩], profile := [[1, 2], [3, 4]], csv := none },
+   { name := "10.d".toList, hasBinary := true, scans := [⟨68, 56, 0⟩, ⟨124, 56, 1⟩], profile := [[5, 6], [7, 8]], csv := none }]
+
+/-- non-vacuity: the image-only call (`full` omitted) with counts per second on a two-line batch
+returns without params; the omitted options take the defaults of the signatures -/
+example : ∃ r, loadBinaryCall exMeta exFilesQ (some [⟨1, "P".toList, 1/2, 31, none⟩, ⟨2, "Eu".toList, 1/4, 153, none⟩]) cps
+      { methods := some [.batchXml], cps := some true, useAcq := none, full := none } = .ok r ∧ r.params = none :=
+  ⟨_, rfl, rfl⟩
+
+example : (⟨none, none, none, none⟩ : CallOpts).methodsV = [.batchXml, .batchCsv] ∧
+    (⟨none, none, none, none⟩ : CallOpts).cpsV = false ∧ (⟨none, none, none, none⟩ : CallOpts).useAcqV = true ∧
+    (⟨none, none, none, none⟩ : CallOpts).fullV = false := ⟨rfl, rfl, rfl, rfl⟩
+
 end Pew.Agilent
